@@ -19,7 +19,9 @@ META = {
                 'would have after exec is computed from the daemon\'s real '
                 'descriptor table and compared with the socket inodes '
                 'recorded at start-up; bind / listen / close call counts, a '
-                'real connect() and listsockets at quiescent points',
+                'real connect() and listsockets at quiescent points; '
+                'file-backed daemons with reloadconfig, a quarter of them '
+                'with httpd = True (the built-in circushttpd socket)',
         'note': _NOTE + '; so_reuseport sockets (bound per worker by design) '
                 'are not generated',
         'technique': _TECH + ' (child descriptor table computed at every '
@@ -89,9 +91,11 @@ META = {
                 'below max_bytes, line prefixes, exact copy without '
                 'rotation). thorough adds a systematic sweep of small '
                 'parameters',
-        'note': 'trusted base: the reference model in props/c20.py; no disk '
-                'faults are injected (the statement promises nothing under '
-                'them); the scheduling dimension of the technique does not '
+        'note': 'trusted base: the reference model in props/c20.py; the only '
+                'disk fault injected is one transient rename / remove error '
+                'inside a rollover (8 % of the random cases: the failed '
+                'write is not owed, contiguity and later writes are); no '
+                'torn or short writes; the scheduling dimension of the technique does not '
                 'apply to this single-caller surface, its history dimension '
                 '(durable state across close/reopen/restart) does',
         'technique': _TECH + ' (history-driven reference-model check of '
@@ -111,7 +115,9 @@ META = {
                 'AsyncCircusClient calls over a simulated transport with '
                 'delay, duplication, reordering, loss and injected stale / '
                 'foreign / null-id replies, checked for id filtering and '
-                'timeout timing on the virtual clock',
+                'timeout timing on the virtual clock; the synchronous '
+                'client is also scheduled late (frames queue up in its '
+                'socket; the simulated DEALER honours ZMQ_CONFLATE)',
         'note': _NOTE + '; multi-frame requests, quit and daemon restart '
                 'messages are outside the daemon-half claim (C08)',
         'technique': _TECH + ' (frame-level reply accounting; client calls '
@@ -268,7 +274,10 @@ META = {
                 'every worker; at the reply every pid spawned before the '
                 'request must be reaped in the kernel, views must say '
                 'stopped/0/[]; afterwards any spawn for a stopped watcher '
-                'before a start-class request is a violation',
+                'before a start-class request is a violation; in 6 % of '
+                'the lives a signal is refused with EPERM (the n-th one, or '
+                'the first SIGKILL inside an overlapping kill / stop): the '
+                'next stop finishes the job and the loop must stay alive',
         'note': _NOTE, 'technique': _TECH + ' (death at every kernel-call '
                 'boundary of the stop sequence)'},
     'C05': {
